@@ -337,6 +337,16 @@ func init() {
 						cand = k(2)
 					case "own+4r":
 						cand = k(4)
+					case "own-r":
+						cand = k(-1)
+					case "own-7r":
+						cand = k(-7)
+					case "own+r*2^70":
+						cand = new(big.Int).Add(tk.hash, new(big.Int).Lsh(bn254R, 70))
+					case "neg-own":
+						cand = new(big.Int).Neg(tk.hash)
+					case "neg-own-r":
+						cand = new(big.Int).Neg(k(1))
 					case "own+1":
 						cand = new(big.Int).Add(tk.hash, big.NewInt(1))
 					case "own-1":
